@@ -208,3 +208,16 @@ CASES += [
          old="         for (auto & stored_group : mArgGroups)\n         {\n            stored_group.mpArgHandler->endValueList();\n         } // end for",
          new="         for (auto & member : mArgGroups)\n            member.mpArgHandler->endValueList();"),
 ]
+
+KV = 'src/celma/prog_args/detail/key_value_container_adapter.hpp'
+CASES += [
+    dict(id='c05-two-part-spec-long-from-one-char-part', prop='C05', file=AK, expect='R7',
+         old="         mChar = sub_end[ 0];\n         mWord = sub_begin;", new="         mChar = sub_end[ 0];\n         mWord = sub_end;"),
+    dict(id='c05-eq-two-part-spec-branches-swapped', prop='C05', file=AK, expect=None,
+         old="      if (sub_begin.length() == 1)\n      {\n         mChar = sub_begin[ 0];\n         mWord = sub_end;\n      } else if (sub_end.length() == 1)\n      {\n         mChar = sub_end[ 0];\n         mWord = sub_begin;\n      } else",
+         new="      if (sub_end.length() == 1)\n      {\n         mChar = sub_end[ 0];\n         mWord = sub_begin;\n      } else if (sub_begin.length() == 1)\n      {\n         mChar = sub_begin[ 0];\n         mWord = sub_end;\n      } else"),
+    dict(id='c08-argmix-equal-compares-with-itself', prop='C08', file=AC, expect='R3',
+         old="         if (argi.key() == other_argi.key())", new="         if (other_argi.key() == other_argi.key())"),
+    dict(id='c08-eq-argmix-operands-swapped', prop='C08', file=AC, expect=None,
+         old="         if (argi.key() == other_argi.key())", new="         if (other_argi.key() == argi.key())"),
+]
